@@ -518,7 +518,8 @@ pub fn run_scenario(sc: &Scenario, idx: usize) -> (Vec<String>, Meta) {
         (0..len.min(256)).map(|i| json!(BASE_VAL + i)).collect()
     };
     run.emit(json!({"e":"Reset","run":sc.id,"idx":idx,"kind":sc.kind,"fam":family(&sc.kind),
-        "hint": if sc.hint.is_empty() {"exact"} else {sc.hint.as_str()},
+        // a size hint of (0, Some(0)) is exact whatever the probe calls it
+        "hint": if sc.hint.is_empty() || (sc.hint == "inexact" && len == 0) {"exact"} else {sc.hint.as_str()},
         "len":len,"src":src_vals,"start":w(start),"end":w(end),"threads":n,"profile":profile,
         "consuming":consuming(&sc.kind),"pnext":sc.panic_next,"tag":if sc.tag.is_null() {json!("")} else {sc.tag.clone()}}));
     run.emit(json!({"e":"Mem","at":"start","live":alloc::live()}));
